@@ -761,6 +761,11 @@ def unit_cases2(ctx, replay):
                 else:
                     sch.on_trial_result(tr, res)
         ctx.count(("mo", c), nontrivial=isinstance(c["modes"], list) and len(set(c["modes"])) == 2)
+        want_mode = c["modes"] if c["modes"] is not None else "min"
+        if sch.metric_mode() != want_mode or sch.metadata()["metric_mode"] != want_mode:
+            ctx.violation("property", "MOASHA(mode=%r).metric_mode() = %r, metadata()['metric_mode'] = %r" % (
+                c["modes"], sch.metric_mode(), sch.metadata()["metric_mode"]), case=c,
+                signature=dict(scheduler="MOASHA", defect="reported_metric_mode"))
         ctx.h("unit_kind", "moasha_metric_dict")
         if not rec.calls or len(rec.calls[-1]) != 2:
             ctx.violation("correspondence", "MOASHA did not call the priority function on the second report", case=c,
